@@ -4,9 +4,13 @@ import common, ceremony
 from ceremony import *
 
 PROP = "C07"
-COQ_TARGETS = ceremony.COQ_TARGETS
-HARNESS_BINS = ceremony.HARNESS_BINS
-replay = ceremony.replay
+import c17cer
+COQ_TARGETS = ceremony.COQ_TARGETS + c17cer.COQ_TARGETS
+HARNESS_BINS = ceremony.HARNESS_BINS + c17cer.HARNESS_BINS
+def replay(payload):
+    if payload.get("domain") == "u2fcer":
+        return c17cer.replay_scenario(payload)
+    return ceremony.replay(payload)
 
 
 def canon(content):
@@ -121,3 +125,9 @@ def check(run):
              "plus random histories with 1-2 injected faults and cancellation",
         assumptions=["a store call either happened completely or not at all when a ceremony is dropped (true of the shipped stores: "
                      "their only internal await is the lock acquisition, before the mutation)"])
+    # the U2F entry points are registrations / authentications too (anchors: credential_store.rs is shared): key handles of
+    # 0..300 bytes, store faults at one call - an error leaves the store as it was, a store error while saving is reported,
+    # an authentication never mutates (model Auth/U2f.v, theorems c17_register_store_error_is_reported /
+    # c17_authenticate_never_mutates; oracle and replay shared with C17)
+    import c17cer
+    run.cov["u2f_ceremonies"] = {k: v for k, v in c17cer.check_ceremony(run, tag="C07-u2f").items() if k not in ("sample", "rule")}
